@@ -84,6 +84,13 @@ theorem pipe_writer_never_waits_on_reader {α : Type} (p : Pipe α) (_h : Pipe.R
 
 /-! ## (b) BreadthFirst -/
 
+/-- The segment pipe inside BreadthFirst IS the BufferedPipe LTS of part (a) (every BreadthFirst step
+is a pipe step or leaves the pipe alone), so `pipe_fifo` holds for it along every schedule: the
+segments received by workers are a prefix, in order, of the segments submitted. -/
+theorem bf_pipe_refines (cfg : Cfg) (s : BF) (h : BF.Reach cfg s) :
+    Pipe.Reach s.sh.pipe ∧ s.sh.pipe.delivered <+: s.sh.pipe.submitted :=
+  ⟨reach_pipe h, (pipe_fifo _ (reach_pipe h)).1⟩
+
 /-- `descentCount` = segments in the pipe + segments being expanded by a worker (+1 for a child
 that is counted but not yet submitted) + the coordinator's root between `Add(1)` and `Submit`
 + units orphaned by a `Submit` that failed because the context was done. Without cancellation the
